@@ -47,6 +47,14 @@ def handleEnrich (s : DState) (toks : List String) : Option Out :=
           | _ => some (die s)
         | _, _ => some (die s)
     | _, _, _ => none
+  | ["enrichbig", bigN, bigK, n, k] =>
+    -- population sizes far beyond what the arena model can hold: a flat ontology of `N` terms, one
+    -- gene on `K` of them, a sample of `n` terms with `k` of the `K`; only the record's line
+    match bigN.toNat?, bigK.toNat?, n.toNat?, k.toNat? with
+    | some N, some K, some n, some k =>
+      if k = 0 ∨ k > K ∨ k > n ∨ K + (n - k) > N then none
+      else some (s, [s!"ENR N={N} n={n} records=1", enrLine N n { id := 1, count := k, K := K }])
+    | _, _, _, _ => none
   | _ => none
 
 end Drv
